@@ -103,7 +103,12 @@ Delivered == nput = NLeaves /\ buf = <<>> /\ pipe = <<>>
 
 \* the property's sentence on what arrives: the tile is the lattice tile of the position it is delivered for, so the grid
 \* computed from it is the centres K levels deeper
-ArrivedIsItsTile == \A i \in DOMAIN got : got[i].tile = TileAt(LS[cfg][got[i].idx].pos)
-ArrivedGridIsCentres == \A i \in DOMAIN got : GridIsCentres(got[i].tile)
+ArrivedOK(a) == a.tile = TileAt(LS[cfg][a.idx].pos) /\ GridIsCentres(a.tile)
+AllArrivedOK == \A i \in DOMAIN got : ArrivedOK(got[i])
+\* `got` only grows at its end, so every arrival is the last element in the state that follows its Get: checking the last
+\* element in every reachable state is AllArrivedOK at a fraction of the cost
+ArrivedIsItsTile == got # <<>> => LET a == got[Len(got)] IN a.tile = TileAt(LS[cfg][a.idx].pos)
+ArrivedGridIsCentres == got # <<>> => GridIsCentres(got[Len(got)].tile)
+DeliveredAllOK == Delivered => AllArrivedOK /\ Len(got) = NLeaves
 LagBounded == \A i \in DOMAIN lag : lag[i] \in 0..Cap
 =============================================================================
